@@ -50,10 +50,12 @@ def extra(led, tier, seed):
     f = kauri_native.selection_search(seed)
     led.add(Ob("native search: the compiled find_best_split returns the best admissible candidate (n_clusters = 4, no double-star admissible)",
                PROVED if f is None else REFUTED, "native", "B", {"native": f, "replayed": f is not None}, fn="gemclus.tree._utils.find_best_split"))
+    from contracts import lean_bounds
+    led.extend(lean_bounds.obligations(tier, file="Lemmas.lean", lemmas=["telescoping"], fn="specs.kauri (lemma L6)"))
     led.assume("A1", "A2", "A3", "A8",
                "A7: the de-cythonised source has the semantics of the compiled extension up to the dropped C typing (int64 wrap-around, double rounding, "
                "typed-memoryview coercions); the installed .so is the build of the current .pyx (conformance runs; cannot be rebuilt: no Cython)",
-               "L6 (telescoping): if every applied gain equals the real increase (Lemma A) the final score is the root score plus the sum of the recorded gains",
+               "L6 (telescoping; machine-checked for any number of splits: lean/Lemmas.lean telescoping): if every applied gain equals the real increase (Lemma A) the final score is the root score plus the sum of the recorded gains",
                "Lemma B models the -inf initialisations by a sentinel below every gain",
                "kernel symmetric, NOT assumed positive semi-definite")
     led.notes.append("P@S: Lemma A / stocks for every tree state with n <= 4 (5 thorough) samples and every symmetric kernel; Lemma B for n_clusters <= 4 (5) with free real stocks; Kauri.fit loop P-inf")
